@@ -69,6 +69,7 @@ func c05(c *core.Ctx, r *core.Report) {
 	c05ondemand(c, r)
 	c05alarms(c, r)
 	c05pure(c, r)
+	c05build(c, r)
 }
 
 func c05ondemand(c *core.Ctx, r *core.Report) {
